@@ -16,8 +16,8 @@ OUTSIDE the documented interface (stated explicitly, see `outside_interface`):
     (float64 features then meet float32 targets in `torch.linalg.solve` and the fit raises);
   * bool labels (treated as a 2-class problem), float16 targets (classification is *not* inferred, but they are not
     32/64-bit floats), an (n,k) integer label matrix (flattened by `reshape(-1)`);
-  * NumPy uint16 / uint32 / uint64 labels: `torch.as_tensor` maps them to torch's storage-only unsigned types and
-    `y_train_and_val.max()` raises NotImplementedError before any leaf is built.
+  (NumPy uint16 / uint32 / uint64 labels used to raise NotImplementedError in `y_train_and_val.max()`; that was a genuine
+  defect against "integer labels in any integer width", repaired by a `fix:` commit, and they are now inside the interface.)
 -/
 import Xrfmv.Model.Coerce
 
@@ -71,21 +71,19 @@ theorem cols_eval (outs K d : Nat) :
     (Cols.classesM1).eval outs K d = K - 1 ∧ (Cols.feats).eval outs K d = d := ⟨rfl, rfl, rfl, rfl, rfl⟩
 
 /-- What is explicitly OUTSIDE the documented interface, and what the model says happens there: feature tensors
-that are not float32 keep their dtype (no conversion); wide unsigned NumPy labels never reach a leaf; bool labels
+that are not float32 keep their dtype (no conversion); bool labels
 are taken for a classification problem; float16 targets for regression. -/
 theorem outside_interface :
     (documentedX ⟨.tensor, .f64, .mat⟩ = false ∧ coerceX ⟨.tensor, .f64, .mat⟩ ≠ canonX) ∧
-    (∀ c s l m, ∀ d ∈ [DType.u16, DType.u32, DType.u64], documentedY l ⟨c, d, s⟩ = false ∧ coerceY l m ⟨c, d, s⟩ = none) ∧
     (∀ c s l, documentedY l ⟨c, .bool, s⟩ = false ∧ isClass ⟨c, .bool, s⟩ = true) ∧
     (∀ c s l, documentedY l ⟨c, .f16, s⟩ = false ∧ isClass ⟨c, .f16, s⟩ = false) := by
-  refine ⟨by decide, ?_, ?_, ?_⟩
-  · intro c s l m; cases c <;> cases s <;> cases l <;> cases m <;> decide
+  refine ⟨by decide, ?_, ?_⟩
   · intro c s l; cases c <;> cases s <;> cases l <;> decide
   · intro c s l; cases c <;> cases s <;> cases l <;> decide
 
 /-- Non-vacuity: the documented interface is not empty — 6 feature representations (3 × the two 2-D shapes) and
-8 / 4 / 20 / 20 target representations for the four kinds of data. -/
+8 / 4 / 32 / 32 target representations for the four kinds of data. -/
 example : (allReps.filter documentedX).length = 6 ∧
-    allLogical.map (fun l => (allReps.filter (documentedY l)).length) = [8, 4, 20, 20] := by decide
+    allLogical.map (fun l => (allReps.filter (documentedY l)).length) = [8, 4, 32, 32] := by decide
 
 end Xrfmv.Props.C20
